@@ -299,6 +299,22 @@ def relations(res):
         res.fail("cold-bath:dynamics at T=2e-3 differ from T=0",
                  {"coupling_eigenvalues": [1.0, 0.25, -0.5], "alpha": 0.3, "cutoff": 3.0, "dt": 0.2,
                   "steps": 4, "difference": err})
+    # (c) a finite memory means dkmax steps also when the first compute() call was shorter
+    def run_cut(split):
+        corr = oqupy.PowerLawSD(alpha=0.3, zeta=1.0, cutoff=3.0, cutoff_type="exponential",
+                                temperature=0.0)
+        par = oqupy.TempoParameters(dt=0.2, epsrel=1e-10, dkmax=4)
+        t = oqupy.Tempo(oqupy.System(h), oqupy.Bath(o, corr), par, rho0, start_time=0.0)
+        if split:
+            t.compute(2 * 0.2 + 0.05, progress_type="silent")
+        return np.array(t.compute(7 * 0.2 + 0.05, progress_type="silent").states)
+    a, b = run_cut(True), run_cut(False)
+    err = float(np.abs(a - b).max()) if a.shape == b.shape else float("inf")
+    res.case("relation:continued-finite-memory", True, {"difference": err})
+    if err > 1e-10:
+        res.fail("memory-meaning:dkmax=4 with a first compute() of 2 steps, then continued",
+                 {"dkmax": 4, "first_call_steps": 2, "total_steps": 7,
+                  "difference_to_one_call": err})
     again = run(0.0, 0.1, sysm, 8)            # the System object of the first run, half the step
     fresh = run(0.0, 0.1, oqupy.System(h), 8)
     err = float(np.abs(again - fresh).max())
